@@ -41,13 +41,13 @@ def run_job(job: dict) -> dict:
     t0 = time.time()
     rec = y.run_history(job.get("claims", []), eavesdrop=job.get("eavesdrop", False),
                         max_zones=job.get("max_zones"), schema=job.get("schema"),
-                        observe_every=job.get("observe_every", 1))
+                        observe_every=job.get("observe_every", 1), known_list=job.get("known_list"))
     rec["job"] = {k: v for k, v in job.items() if k != "model"}
     rec["drift"] = []
     if job.get("model") and "load_error" not in rec:
         for i, st in enumerate(job["model"]):
             if i < len(rec["steps"]):
-                d = y.model_vs_real(st, rec["steps"][i], GEN_DEVS)
+                d = y.model_vs_real(st, rec["steps"][i], sorted(st["par"]))
                 if d:
                     rec["drift"].append([i, d[:3]])
                     break
@@ -109,6 +109,107 @@ def model_state(st: dict) -> dict:
     return m
 
 
+# --------------------------------------------------------------------------------------
+# transition coverage: every (graph, claim) pair of a small instance is executed on the real code
+
+GRAPH_VARS = ("zones", "cls", "sen", "acts", "dhw", "app", "par", "ctl")
+
+
+def transition_tours(cfgfile: str, max_len: int = 60) -> tuple[list[dict], dict]:
+    """TLC enumerates the transition relation of the instance (spec/MC_TopologyTC.tla: one dumped state per distinct
+    <<graph before, claim, graph after>>); the edges are strung into histories ("tours") that start at the empty
+    graph and together take every edge at least once: at each graph reached, first every claim that leaves the graph
+    as it is (refused, repeated, empty, fake), then an edge not taken yet - or the shortest way to a graph that has one.
+    Returns the tours [{claims, model}] and the measured numbers."""
+    tmp = tempfile.mkdtemp(prefix="c15tc_")
+    try:
+        r = tlc.run_tlc("MC_TopologyTC", cfgfile, workers=2, timeout=1500, dump=f"{tmp}/all")
+        if not r.ok:
+            raise tlc.MachineryFailure(f"TLC {cfgfile}: violated={r.violated} errors={r.errors[:2]}\n{r.out[-1200:]}")
+        states = tlc.read_dump(f"{tmp}/all")
+    finally:
+        shutil.rmtree(tmp, ignore_errors=True)
+    if len(states) != r.distinct:
+        raise tlc.MachineryFailure(f"TLC {cfgfile}: {r.distinct} distinct states, {len(states)} parsed from the dump")
+
+    def key(g: dict) -> str:
+        return json.dumps({k: g[k] for k in GRAPH_VARS}, sort_keys=True)
+
+    edges: dict[str, list[dict]] = {}
+    init = None
+    for st in states:
+        m = model_state(st)
+        if not st["hist"]:
+            init = m
+            edges.setdefault(key(m), [])
+            continue
+        src = key(plain(dict(zip(GRAPH_VARS, st["pg"]))))
+        e = {"claim": plain(st["hist"][-1]), "dst": key(m), "model": m}
+        e["ck"] = json.dumps(e["claim"], sort_keys=True)
+        edges.setdefault(src, []).append(e)
+        edges.setdefault(e["dst"], [])
+    if init is None:
+        raise tlc.MachineryFailure(f"TLC {cfgfile}: no initial state in the dump")
+    for src in edges:
+        edges[src].sort(key=lambda e: e["ck"])
+    todo = {src: list(es) for src, es in edges.items()}
+    left = sum(len(es) for es in todo.values())
+    n_edges = left
+
+    def way_to_work(cur: str) -> list[dict] | None:  # BFS over the edges that change the graph
+        seen, queue = {cur}, [(cur, [])]
+        while queue:
+            node, path = queue.pop(0)
+            if todo[node] and node != cur:
+                return path
+            for e in edges[node]:
+                if e["dst"] not in seen:
+                    seen.add(e["dst"])
+                    queue.append((e["dst"], path + [e]))
+        return None
+
+    tours = []
+    while left:
+        cur, tour, left0 = key(init), [], left
+        while True:
+            room = max_len - len(tour)
+            loops = [e for e in todo[cur] if e["dst"] == cur]
+            if loops and (room > 0 or not tour):
+                take = loops[: max(room, 1)]
+            elif todo[cur] and (room > 0 or not tour):
+                take = [todo[cur][0]]
+            else:
+                path = way_to_work(cur) if (room > 0 or not tour) else None
+                if path is None or (tour and len(path) >= room):
+                    break
+                tour += path
+                cur = path[-1]["dst"]
+                continue
+            for e in take:
+                todo[cur].remove(e)
+                left -= 1
+                tour.append(e)
+            cur = take[-1]["dst"]
+        if left == left0:
+            raise tlc.MachineryFailure("transition tours: no progress")
+        tours.append({"claims": [y.claim_from_model(e["claim"]) for e in tour],
+                      "model": [init] + [e["model"] for e in tour]})
+    return tours, {"cfg": cfgfile, "graphs": len(edges), "transitions": n_edges, "tours": len(tours),
+                   "tour_steps": sum(len(t["claims"]) for t in tours), "tlc_generated": r.states,
+                   "tlc_wall_s": round(r.wall_s, 1)}
+
+
+def kl_variant(n: int, devs: list[str]) -> dict | None:
+    """The known_list dimension: nothing listed / the devices that can be faked listed / listed as `faked: true`."""
+    cls = {"34": "THM", "22": "THM", "12": "THM", "03": "THM", "07": "DHW", "04": "TRV", "00": "TRV", "13": "BDR",
+           "10": "OTB"}
+    fakeable = ("THM", "DHW")
+    if n % 3 == 0:
+        return None
+    return {d: ({"class": cls[d[:2]], "faked": True} if n % 3 == 2 and cls[d[:2]] in fakeable else {"class": cls[d[:2]]})
+            for d in devs if d[:2] in cls}
+
+
 def directed_histories() -> list[dict]:
     """One history per device type the library's own tables permit in a role (DEV_TYPE_MAP.HEAT_ZONE_SENSORS,
     HEAT_ZONE_ACTUATORS, ...): the claim, the same claim again, and a conflicting second claim."""
@@ -124,11 +225,33 @@ def directed_histories() -> list[dict]:
                   {"k": "devs", "ctl": ctl, "idx": idx, "role": role, "devs": [d1]},
                   {"k": "devs", "ctl": ctl, "idx": idx, "role": role, "devs": [d2]},
                   {"k": "devs", "ctl": ctl, "idx": "01" if idx == "00" else "00", "role": role, "devs": [d1]}]
+        # ... then the role is reported empty (a reply that names no device), and the other zone claims the device again
+        claims += [{"k": "devs", "ctl": ctl, "idx": idx, "role": role, "devs": []}, dict(claims[3])]
         for eav in (False, True):
             out.append({"kind": "directed-by-type", "claims": claims, "eavesdrop": eav, "max_zones": 12, "tag": tag})
 
+    def two_roles(typ: str, act_role: str, sensor_first: bool) -> None:
+        """A device that is the sensor *and* an actuator of its zone (an HR92 usually is): both roles claimed, then
+        either role reported empty, then another zone claims the device in either role."""
+        d1 = f"{typ}:000301"
+
+        def cl(idx: str, role: str, devs: list[str]) -> dict:
+            return {"k": "devs", "ctl": ctl, "idx": idx, "role": role, "devs": devs}
+
+        both = [cl("00", "04", [d1]), cl("00", act_role, [d1])]
+        for empty_role in ("04", act_role):
+            for then_role in ("04", act_role):
+                claims = (both if sensor_first else both[::-1]) + [cl("00", empty_role, []), cl("01", then_role, [d1]),
+                                                                   cl("00", "04", [d1]), cl("00", act_role, [d1])]
+                out.append({"kind": "directed-by-type", "claims": claims, "eavesdrop": empty_role == "04",
+                            "max_zones": 12, "tag": f"two-roles-{typ}-{act_role}-empty-{empty_role}-then-{then_role}",
+                            "known_list": kl_variant(len(out), [d1])})
+
     for typ in DEV_TYPE_MAP.HEAT_ZONE_SENSORS:
         hist("04", "00", typ, f"sensor-{typ}")
+        if typ in DEV_TYPE_MAP.HEAT_ZONE_ACTUATORS:
+            for n, act_role in enumerate(("00", "08")):
+                two_roles(typ, act_role, sensor_first=bool(n))
     for typ in DEV_TYPE_MAP.HEAT_ZONE_ACTUATORS:
         for role in ("00", "08", "0A"):
             hist(role, "00", typ, f"actuator-{typ}-{role}")
@@ -290,6 +413,20 @@ def gen_schema(rng: random.Random) -> dict:
     return out
 
 
+def schema_devs(sch: dict) -> list[str]:
+    """The devices a schema names as zone / DHW sensors, actuators, valves, appliance control."""
+    out: set[str] = set()
+    for c, tcs in sch.items():
+        if not isinstance(tcs, dict):
+            continue
+        for z in (tcs.get("zones") or {}).values():
+            out |= {z["sensor"]} if z.get("sensor") else set()
+            out |= set(z.get("actuators") or [])
+        out |= set((tcs.get("stored_hotwater") or {}).values())
+        out |= {tcs["system"]["appliance_control"]} if (tcs.get("system") or {}).get("appliance_control") else set()
+    return sorted(d for d in out if d and d[:2] != "01")
+
+
 # --------------------------------------------------------------------------------------
 # judging
 
@@ -327,6 +464,7 @@ def classify(rec: dict, fail: tuple) -> tuple[str, str]:
 def judge(chk: Check, recs: list[dict]) -> dict:
     items = [y.to_item(r) for r in recs]
     res = tlc.validate_batch("TopologyTrace", items, workers=2, timeout=900, chunk=300)
+    by_kind: dict[str, int] = {}
     for i, fail in res["rejects"]:
         rec = recs[i]
         key, what = classify(rec, fail)
@@ -334,8 +472,11 @@ def judge(chk: Check, recs: list[dict]) -> dict:
         oe = job.get("observe_every", 1)
         replay = {"claims": job.get("claims", [])[: max(fail[0] - 1, 0) * oe], "eavesdrop": job.get("eavesdrop", False),
                   "max_zones": job.get("max_zones"), "schema": job.get("schema"), "observe_every": oe,
-                  "fail": list(fail)}
+                  "known_list": job.get("known_list"), "fail": list(fail)}
         chk.violation(key, what, replay)
+        by_kind[f"{job['kind']}|{key}"] = by_kind.get(f"{job['kind']}|{key}", 0) + 1
+    if by_kind:
+        chk.note("rejected histories by kind|key: " + json.dumps(by_kind, sort_keys=True))
     return res
 
 
@@ -456,7 +597,8 @@ def do_replay(path: str) -> None:
     obj = json.load(open(path))
     rp = obj.get("replay", obj)
     rec = y.run_history(rp.get("claims", []), eavesdrop=rp.get("eavesdrop", False), max_zones=rp.get("max_zones"),
-                        schema=rp.get("schema"), observe_every=rp.get("observe_every", 1))
+                        schema=rp.get("schema"), observe_every=rp.get("observe_every", 1),
+                        known_list=rp.get("known_list"))
     rec["job"] = rp
     if "load_error" in rec:
         print("the gateway refused the configuration:", rec["load_error"])
@@ -466,7 +608,7 @@ def do_replay(path: str) -> None:
         print(f"   schema view {json.dumps(s['view'])}")
         print(f"   validator: {s['valid_err'] or 'accepted'};  reload: "
               f"{'same' if _facts(s['reload']) == _facts(s['view']) else json.dumps(s['reload'])}")
-        print(f"   reported: {s['loop_exc'] + s['logs']}")
+        print(f"   reported: {s['loop_exc'] + s['logs']};  faked: {s['faked']}  {s['api_exc'] or ''}")
     res = tlc.validate_batch("TopologyTrace", [y.to_item(rec)], workers=1)
     print("TLC verdict:", res["rejects"] or "accepted")
     for _, fail in res["rejects"]:
@@ -482,7 +624,21 @@ def main(tier: str, replay: str | None) -> None:
     thorough = tier == "thorough"
     procs = 8 if thorough else 4
     mc = TlcPhase(tier, 6 if thorough else 3)
+    import ramses_rf.schemas  # noqa: F401  (before the workers are forked)
+    # the workers are forked first (no thread is running yet); the exhaustive instances then run beside everything
+    # else - generating the histories, driving the gateway, judging - and are collected at the end
+    pool = mp.get_context("fork").Pool(procs)
+    th_mc = threading.Thread(target=mc.all)
+    try:
+        th_mc.start()
+        recs, drive_wall, ctx = _explore(chk, rng, thorough, pool)
+    finally:
+        pool.terminate()
+        pool.join()
+    _conclude(chk, mc, th_mc, recs, drive_wall, ctx)
 
+
+def _explore(chk: Check, rng: random.Random, thorough: bool, pool: Any) -> tuple[list[dict], float, dict]:
     # ---- histories out of TLC ------------------------------------------------------------
     n_sim = 300 if thorough else 30
     jobs: list[dict] = []
@@ -495,21 +651,39 @@ def main(tier: str, replay: str | None) -> None:
         except BaseException as err:  # noqa: BLE001
             sims[cfgfile] = err
 
+    tc: dict[str, Any] = {}
+
+    def tours() -> None:
+        try:
+            tc["tours"], tc["cov"] = transition_tours("MC_TopologyTC_big.cfg" if thorough else "MC_TopologyTC.cfg")
+        except BaseException as err:  # noqa: BLE001
+            tc["err"] = err
+
     ths = [threading.Thread(target=sim, args=(f,)) for f in ("MC_Topology_gen.cfg", "MC_Topology_gen_ne.cfg")]
+    ths.append(threading.Thread(target=tours))
     [t.start() for t in ths]
     [t.join() for t in ths]
+    if "err" in tc:
+        raise tc["err"]
     for cfgfile, eav in (("MC_Topology_gen.cfg", True), ("MC_Topology_gen_ne.cfg", False)):
         if isinstance(sims[cfgfile], BaseException):
             raise sims[cfgfile]
         for states in sims[cfgfile]:
             claims = [y.claim_from_model(c) for c in plain(states[-1]["hist"])]
             model = [model_state(st) for st in states]
-            jobs.append({"kind": "tlc-history", "claims": claims, "eavesdrop": eav, "max_zones": 2, "model": model})
+            # (the known_list dimension: nothing listed / the thermostats and the DHW sensor listed / listed as faked)
+            jobs.append({"kind": "tlc-history", "claims": claims, "eavesdrop": eav, "max_zones": 2, "model": model,
+                         "known_list": kl_variant(len(jobs), GEN_DEVS)})
             for m in model[1:]:
                 sch = y.schema_from_model(m)
                 if sch:
                     graphs.setdefault(json.dumps(sch, sort_keys=True), sch)
     n_hist = len(jobs)
+    # every transition of the small instance, the tours taking turns in the three known_list settings
+    tc_devs = sorted(tc["tours"][0]["model"][0]["par"])
+    for n, t in enumerate(tc["tours"]):
+        jobs.append({"kind": "tlc-transition-tour", "claims": t["claims"], "eavesdrop": True, "max_zones": 2,
+                     "model": t["model"], "known_list": kl_variant(n, tc_devs)})
     jobs += directed_histories()
     jobs += ufc_histories()
     jobs += log_histories(rng, 120 if thorough else 10)
@@ -530,7 +704,8 @@ def main(tier: str, replay: str | None) -> None:
             continue
         sch = graphs[k]
         jobs.append({"kind": "tlc-graph-as-schema", "schema": sch, "max_zones": 2,
-                     "eavesdrop": bool(rng.getrandbits(1)), "expect_view": y.schema_view(sch)})
+                     "eavesdrop": bool(rng.getrandbits(1)), "expect_view": y.schema_view(sch),
+                     "known_list": kl_variant(len(jobs), GEN_DEVS)})
     for _ in range(300 if thorough else 40):
         sch = gen_schema(rng)
         try:
@@ -539,24 +714,26 @@ def main(tier: str, replay: str | None) -> None:
             n_rejected += 1
             continue
         jobs.append({"kind": "generated-schema", "schema": sch, "eavesdrop": bool(rng.getrandbits(1)),
-                     "max_zones": rng.choice([None, 12, 16]), "expect_view": y.schema_view(sch)})
+                     "max_zones": rng.choice([None, 12, 16]), "expect_view": y.schema_view(sch),
+                     "known_list": kl_variant(len(jobs), schema_devs(sch))})
 
     t0 = time.time()
-    with mp.get_context("fork").Pool(procs) as pool:
-        fut = pool.map_async(run_job, jobs, chunksize=2)
-        th = threading.Thread(target=mc.all)
-        th.start()
-        recs = fut.get()
-        drive_wall = round(time.time() - t0, 1)
-        th.join()
+    recs = pool.map(run_job, jobs, chunksize=2)
+    return recs, round(time.time() - t0, 1), {"tc": tc, "graphs": graphs, "n_rejected": n_rejected}
+
+
+def _conclude(chk: Check, mc: TlcPhase, th_mc: threading.Thread, recs: list[dict], drive_wall: float, ctx: dict) -> None:
+    tc, graphs, n_rejected = ctx["tc"], ctx["graphs"], ctx["n_rejected"]
+    refused = [r for r in recs if "load_error" in r]
+    recs = [r for r in recs if "load_error" not in r]
+    t0 = time.time()
+    res = judge(chk, recs)
+    n_self = selfcheck_judge(recs, {i for i, _ in res["rejects"]})
+    judge_wall = round(time.time() - t0, 1)
+    th_mc.join()
     if mc.error is not None:
         raise mc.error
     cov = mc.cov
-
-    refused = [r for r in recs if "load_error" in r]
-    recs = [r for r in recs if "load_error" not in r]
-    res = judge(chk, recs)
-    n_self = selfcheck_judge(recs, {i for i, _ in res["rejects"]})
 
     n_drift = 0
     for r in recs:
@@ -569,7 +746,7 @@ def main(tier: str, replay: str | None) -> None:
         kinds[r["job"]["kind"]] = kinds.get(r["job"]["kind"], 0) + 1
     refusals = sorted({r["load_error"].split(":")[0] for r in refused})
     samples = []
-    for kind in ("tlc-history", "directed-by-type", "log-history", "tlc-graph-as-schema", "generated-schema"):
+    for kind in ("tlc-history", "tlc-transition-tour", "directed-by-type", "log-history", "tlc-graph-as-schema", "generated-schema"):
         for r in [q for q in recs if q["job"]["kind"] == kind][:2]:
             samples.append({"kind": kind, "eavesdrop": r["eavesdrop"], "max_zones": r["max_zones"],
                             "src": r["job"].get("src"), "claims": r["claims"][:6], "schema_loaded": r["job"].get("schema"),
@@ -582,7 +759,16 @@ def main(tier: str, replay: str | None) -> None:
             "tlc_instances": cov["instances"],
             "traces_validated_against_impl": res["n"],
             "steps_judged": sum(len(r["steps"]) for r in recs),
-            "steps_compared_with_model": sum(len(r["steps"]) for r in recs if r["job"]["kind"] == "tlc-history"),
+            "steps_compared_with_model": sum(len(r["steps"]) for r in recs
+                                             if r["job"]["kind"] in ("tlc-history", "tlc-transition-tour")),
+            "transition_coverage": tc["cov"],
+            "steps_with_a_faked_device": sum(1 for r in recs for s in r["steps"] if s["faked"]),
+            "steps_with_a_faked_zone_or_dhw_sensor": sum(
+                1 for r in recs for s in r["steps"]
+                if set(s["faked"]) & ({z["sen"] for v in s["view"].values() for z in v["zones"].values()}
+                                      | {v["dhw"]["sen"] for v in s["view"].values()})),
+            "steps_after_an_empty_claim": sum(1 for r in recs for s in r["steps"]
+                                              if s["claim"].get("k") == "devs" and not s["claim"].get("devs")),
             "steps_refused_and_reported": sum(1 for r in recs for s in r["steps"] if s["loop_exc"] or s["logs"]),
             "runs_by_kind": kinds,
             "distinct_model_graphs_as_schemas": len(graphs),
@@ -592,6 +778,7 @@ def main(tier: str, replay: str | None) -> None:
             "model_drift_steps": n_drift,
             "judge_selfcheck_corrupted_items_rejected": n_self,
             "drive_wall_s": drive_wall,
+            "judge_wall_s": judge_wall,
             "tlc_wall_s": cov.get("tlc_wall_s"),
             "samples": samples,
         },
